@@ -149,6 +149,9 @@ class Result:
         self.functions = []
         self.noteval_reasons = {}
         self.query_log = []
+        self.float_twin_agree = 0
+        self.float_twin_differ = 0
+        self.float_differ_samples = []
 
     def as_dict(self):
         d = dict(self.__dict__)
@@ -172,6 +175,16 @@ def run_concrete(harness, params, assignment, fatal=None, real_as="exact"):
     finally:
         symx._E = saved
     return ctx, status
+
+
+def _float_exact(assignment):
+    from fractions import Fraction
+    for v in assignment.values():
+        if isinstance(v, Fraction):
+            d = v.denominator
+            if d & (d - 1) or d > 2 ** 20 or abs(v) > 2 ** 30:
+                return False
+    return True
 
 
 def _jsonable(x):
@@ -241,6 +254,17 @@ def explore(harness, params, fatal=None, deadline_s=300.0, validate=True,
                            sym_trace[k] if k < len(sym_trace) else None,
                            con_trace[k] if k < len(con_trace) else None, assignment))
                 res.validated += 1
+                # where the model point is exactly representable in binary floating point, the
+                # stream a user gets with float costs is compared too (informational: IEEE
+                # rounding is outside every claim)
+                if E.has_reals() and _float_exact(assignment):
+                    fctx, fstatus = run_concrete(harness, params, assignment, fatal=fatal, real_as="float")
+                    if fstatus == cstatus and plain(fctx.trace_items) == con_trace:
+                        res.float_twin_agree += 1
+                    else:
+                        res.float_twin_differ += 1
+                        if len(res.float_differ_samples) < 3:
+                            res.float_differ_samples.append(_jsonable(assignment))
                 # requirements that exist only in the concrete twin (type checks on emitted actions)
                 sym_tags = {f[0] for f in ctx.failures}
                 for ctag, cinfo in cctx.failures:
